@@ -139,6 +139,15 @@ def compare(ast, sm, schema, text, rng=None):
             handler({})
         except Exception as e:  # noqa
             out.append(("empty-map-raises", repr(e)))
+        calls[:] = []
+        try:
+            handler({"Apply": recorder("a"), "apply": recorder("b")})
+        except ZConfig.ConfigurationError:
+            pass
+        except Exception as e:  # noqa
+            out.append(("duplicate-map:wrong-exception", repr(e)))
+        else:
+            out.append(("duplicate-names-accepted", "no entries; map ['Apply', 'apply']"))
     return ref, out
 
 
